@@ -102,7 +102,7 @@ def audit_axioms(modules: List[str], theorems: List[str], tag: str) -> Dict[str,
         return {}
     adir = os.path.join(LEAN_DIR, ".lake", "audit")
     os.makedirs(adir, exist_ok=True)
-    path = os.path.join(adir, f"Audit_{tag}.lean")
+    path = os.path.join(adir, f"Audit_{tag}_{os.getpid()}.lean" if os.environ.get("VERIF_SCRATCH_RUN") else f"Audit_{tag}.lean")
     with open(path, "w") as f:
         for m in sorted(set(modules)):
             f.write(f"import {m}\n")
@@ -142,15 +142,29 @@ class _Proc:
         self.p = subprocess.Popen([path], stdin=subprocess.PIPE, stdout=subprocess.PIPE, text=True, bufsize=1 << 20)
 
     def ask_many(self, lines: List[str]) -> List[str]:
+        """Pipelined request/reply.  Requests are written by a helper thread while the replies are read
+        here, so neither pipe can fill up and dead-lock however long the request or reply lines are."""
+        import threading
+
         out: List[str] = []
-        CH = 2000
+        CH = 500
         for k in range(0, len(lines), CH):
             chunk = lines[k : k + CH]
-            self.p.stdin.write("\n".join(chunk) + "\nflush\n")
-            self.p.stdin.flush()
+            payload = "\n".join(chunk) + "\nflush\n"
+
+            def _w(data=payload):
+                try:
+                    self.p.stdin.write(data)
+                    self.p.stdin.flush()
+                except Exception:
+                    pass
+
+            th = threading.Thread(target=_w, daemon=True)
+            th.start()
             for _ in chunk:
                 out.append(self.p.stdout.readline().rstrip("\n"))
             fl = self.p.stdout.readline().strip()
+            th.join()
             assert fl == "flushed", f"driver protocol out of sync: {fl!r}"
         return out
 
